@@ -920,8 +920,20 @@ pub fn run(tape: &mut Tape, props: Props, thorough: bool, trace_on: bool, force:
     if medium == Medium::Ethernet && tape.draw(2) == 0 {
         let _ = node.iface.join_multicast_group(smoltcp::wire::Ipv6Address::new(0xff02, 0, 0, 0, 0, 0, 0, 0x42));
     }
-    let ctx6: Ctx6 = vec![];
-    let desc = format!("adversary medium={:?} mtu={} slaac={} csum={:?}", medium, mtu, slaac, cfg.csum);
+    // 6LoWPAN address contexts (context-based compression modes index into this table with a 4-bit identifier
+    // taken from the frame)
+    let mut ctx6: Ctx6 = vec![];
+    if medium == Medium::Ieee802154 && tape.draw(2) == 0 {
+        for k in 0..1 + tape.draw(2) as u8 {
+            let pfx = [0xfd, 0x00, 0, 0, 0, 0, 0, k];
+            if node.iface.sixlowpan_address_context_mut().push(smoltcp::wire::SixlowpanAddressContext(pfx)).is_ok() {
+                let mut p = [0u8; 16];
+                p[..8].copy_from_slice(&pfx);
+                ctx6.push((p, 64));
+            }
+        }
+    }
+    let desc = format!("adversary medium={:?} mtu={} slaac={} csum={:?} 6lowpan-contexts={}", medium, mtu, slaac, cfg.csum, ctx6.len());
     let mut a = Adv { tape, props, node, view, medium, now: 1_000_000, stats: Stats::default(), hash: LogHash::new(), trace: vec![], trace_on, events: 0, v4, v6a, p4: IpAddr::V4([10, 0, 0, 2]), p6, seqno: 0, tcp_est: Some((40000, 81, 0, 0)), dns_q: vec![], dhcp_xid: None, history: vec![], h_tcp_conn, ctx6 };
     let r = body(&mut a, thorough, h_udp, h_dns);
     let nontrivial = a.stats.get("adv.frames") >= 10 && a.stats.get("adv.mutated") >= 1;
@@ -969,7 +981,11 @@ fn body(a: &mut Adv, thorough: bool, h_udp: SocketHandle, h_dns: SocketHandle) -
         // has to go back through the egress fragmentation path
         if a.medium != Medium::Ieee802154 && a.v4.is_some() && a.tape.draw(24) == 23 {
             let (v, p) = (a.v4.unwrap(), a.p4);
-            let len = match a.tape.draw(5) {
+            let l2 = if a.medium == Medium::Ethernet { 14 } else { 0 };
+            let len = match a.tape.draw(7) {
+                // the whole datagram (and so the reply) is 1..16 octets longer than what fits one frame: the second
+                // fragment is tiny
+                5 | 6 => (a.node.dev.mtu - l2 - 28) + 1 + a.tape.draw(16) as usize,
                 0 => a.tape.range(1440, 1540) as usize,
                 1 => a.tape.range(1465, 1500) as usize,
                 2 => a.node.dev.mtu.saturating_sub(60) + a.tape.draw(80) as usize,
@@ -1207,6 +1223,34 @@ fn probe(a: &mut Adv) -> Result<(), Violation> {
         a.now += 700_000;
     }
     a.stats.inc("adv.probes");
+    // the interface must also come to rest: on an accepting device, polls that move no frame are followed by a
+    // deadline in the future (or none) - an interface left with something it can never finish keeps asking to be
+    // polled at once, and an event loop built on poll_at spins
+    if answered {
+        a.now += 5_000_000;
+        let mut idle_now = 0;
+        for _ in 0..40 {
+            let outs = a.poll()?;
+            let d = a.node.poll_at(a.now)?;
+            match d {
+                Some(t) if t <= a.now => {
+                    if outs.is_empty() {
+                        idle_now += 1;
+                    } else {
+                        idle_now = 0;
+                    }
+                    if idle_now >= 8 {
+                        return Err(viol("C03", "still-answers", format!("C03.wedged/poll_at-stays-now-without-progress/{:?}", a.medium), format!("after the adversarial sequence, {} consecutive polls at t={} us moved no frame and poll_at still returns {} us: the interface never comes to rest", idle_now, a.now, t)));
+                    }
+                }
+                Some(t) => {
+                    idle_now = 0;
+                    a.now = t.min(a.now + 2_000_000);
+                }
+                None => break,
+            }
+        }
+    }
     if !answered {
         return Err(viol(
             "C03",
